@@ -387,8 +387,9 @@ func Chain(n *gen.Node) []Layer {
 // VLayer is a layer of the visible tree with its position.
 type VLayer struct {
 	Layer
-	Depth int    // multi-cause nesting depth
-	Text  string // expected Error() of the Go object at this layer
+	Depth  int    // multi-cause nesting depth
+	Text   string // expected Error() of the Go object at this layer
+	Parent int    // index (in the same list) of the layer this one is a cause of; -1 for the root
 }
 
 // LayerText gives the expected Error() of each own layer of n.
@@ -576,3 +577,33 @@ func Taint(n *gen.Node) (unsafe, safe []Tok) {
 	rec(n, false, false)
 	return
 }
+
+// Display returns the visible layers in the order %+v numbers them:
+// a layer, then its causes — the branches of a multi-cause layer in
+// reverse order. Depth is the multi-cause nesting depth.
+func Display(n *gen.Node) []VLayer {
+	var out []VLayer
+	var rec func(n *gen.Node, depth, parent int)
+	rec = func(n *gen.Node, depth, parent int) {
+		ls := OwnLayers(n)
+		ts := layerTexts(n, ls)
+		for i, l := range ls {
+			out = append(out, VLayer{Layer: l, Depth: depth, Text: ts[i], Parent: parent})
+			parent = len(out) - 1
+		}
+		if IsMulti(n) {
+			for i := len(n.Kids) - 1; i >= 0; i-- {
+				rec(n.Kids[i], depth+1, parent)
+			}
+			return
+		}
+		for _, k := range n.Kids {
+			rec(k, depth, parent)
+		}
+	}
+	rec(n, 0, -1)
+	return out
+}
+
+// IsLib reports whether a layer is one of the library's own types.
+func (l Layer) IsLib() bool { return strings.HasPrefix(l.Family, lib) }
